@@ -190,6 +190,10 @@ func (t *tree5) derive(p *node5, r *rng.R) *node5 {
 			hs = append(hs, hook5{t.hookN})
 		}
 		n.l = p.l.Hook(hs...)
+		// the caller's slice is the caller's: reusing it afterwards changes nothing in the logger just derived
+		for j := range hs {
+			hs[j] = hook5{9000 + j}
+		}
 	case k == 9:
 		n.step = "Output"
 		n.w = &gen.Rec{}
